@@ -451,6 +451,101 @@ func (w *c19World) produce(acks int16, parts []c19Part) (res string) {
 	return fmt.Sprintf("codes=%s writes=%s", codes, strings.Join(ws, ","))
 }
 
+// lost: manager A observes the loss of its session through monitorSession (keepalive channel closed).
+func (w *c19World) lost() string {
+	id := w.a.VerifLM().VerifSessionLease()
+	if id == 0 {
+		return "-"
+	}
+	w.aLease.mu.Lock()
+	lose := w.aLease.lose[clientv3.LeaseID(id)]
+	w.aLease.mu.Unlock()
+	if lose == nil {
+		return "no-keepalive"
+	}
+	lose()
+	deadline := time.Now().Add(5 * time.Second)
+	for w.a.VerifLM().VerifSessionLease() == id && time.Now().Before(deadline) {
+		time.Sleep(200 * time.Microsecond)
+	}
+	if w.a.VerifLM().VerifSessionLease() == id {
+		return "loss-not-observed"
+	}
+	return "-"
+}
+
+// xproduce: the session of A is lost, and the loss is first noticed by the Done() branch of getOrCreateSession inside
+// the Acquire of this request (a partition A does not own yet), BEFORE the monitorSession goroutine gets the lock.
+// Schedule: the harness holds the manager's read lock (like an Owns() call in progress); the request runs until its
+// Acquire waits for the write lock in getOrCreateSession; the keepalive channel is closed and the session's Done()
+// closes; the read lock is released: the Acquire is first in line for the write lock, monitorSession comes after it.
+// When A has no session, or already owns the partition (no Acquire would run), the loss is observed the ordinary way
+// (`a lost`) and the request is sent afterwards.
+func (w *c19World) xproduce(acks int16, parts []c19Part) string {
+	lm := w.a.VerifLM()
+	id := lm.VerifSessionLease()
+	if id == 0 || lm.VerifClosed() {
+		return w.produce(acks, parts)
+	}
+	r := c19Resources[parts[0].r]
+	rid := fmt.Sprintf("%s/%d", r.topic, r.part)
+	for _, o := range lm.VerifOwned() {
+		if o == rid {
+			if res := w.lost(); res != "-" {
+				return res
+			}
+			return w.produce(acks, parts)
+		}
+	}
+	w.aLease.mu.Lock()
+	lose := w.aLease.lose[clientv3.LeaseID(id)]
+	w.aLease.mu.Unlock()
+	done := lm.VerifSessionDone()
+	if lose == nil || done == nil {
+		return "no-keepalive"
+	}
+	release := lm.VerifReadHold()
+	released := false
+	defer func() {
+		if !released {
+			release()
+		}
+	}()
+	ch := make(chan string, 1)
+	go func() { ch <- w.produce(acks, parts) }()
+	deadline := time.Now().Add(5 * time.Second)
+	for !lm.VerifWriterPending() {
+		select {
+		case <-ch:
+			return "race-not-reached" // the request finished without asking for the write lock
+		default:
+		}
+		if time.Now().After(deadline) {
+			return "race-not-reached"
+		}
+		time.Sleep(100 * time.Microsecond)
+	}
+	lose()
+	select {
+	case <-done:
+	case <-time.After(5 * time.Second):
+		return "loss-not-observed"
+	}
+	released = true
+	release()
+	select {
+	case res := <-ch:
+		// let the monitor goroutine of the dead session finish its (late) pass before the state is observed
+		for i := 0; i < 50 && lm.VerifWriterPending(); i++ {
+			time.Sleep(100 * time.Microsecond)
+		}
+		time.Sleep(2 * time.Millisecond)
+		return res
+	case <-time.After(10 * time.Second):
+		return "hang"
+	}
+}
+
 func c19ResName(err error) string {
 	switch {
 	case err == nil:
@@ -509,25 +604,14 @@ func (w *c19World) exec(f []string) string {
 		w.b.Release(c19Resources[r].topic, c19Resources[r].part)
 		return "-"
 	case f[0] == "a" && len(f) == 2 && f[1] == "lost":
-		id := w.a.VerifLM().VerifSessionLease()
-		if id == 0 {
-			return "-"
+		return w.lost()
+	case f[0] == "xproduce" && len(f) == 3:
+		acks, err := strconv.Atoi(f[1])
+		parts, ok := c19ParseParts(f[2:])
+		if err != nil || !ok || len(parts) != 1 || w.pending != nil {
+			return "bad-op"
 		}
-		w.aLease.mu.Lock()
-		lose := w.aLease.lose[clientv3.LeaseID(id)]
-		w.aLease.mu.Unlock()
-		if lose == nil {
-			return "no-keepalive"
-		}
-		lose()
-		deadline := time.Now().Add(5 * time.Second)
-		for w.a.VerifLM().VerifSessionLease() == id && time.Now().Before(deadline) {
-			time.Sleep(200 * time.Microsecond)
-		}
-		if w.a.VerifLM().VerifSessionLease() == id {
-			return "loss-not-observed"
-		}
-		return "-"
+		return w.xproduce(int16(acks), parts)
 	case f[0] == "a" && len(f) == 2 && f[1] == "expire":
 		cur := []int64{w.a.VerifLM().VerifSessionLease(), w.b.VerifLM().VerifSessionLease()}
 		if ls, err := w.admin.Leases(ctx); err == nil {
